@@ -1,32 +1,32 @@
 package scratch
 
 import (
-	"context"
 	"fmt"
 	"testing"
 
-	"github.com/bufbuild/protocompile"
-	"github.com/bufbuild/protocompile/protoutil"
+	"github.com/bufbuild/protocompile/experimental/ast/printer"
+	"github.com/bufbuild/protocompile/experimental/parser"
+	"github.com/bufbuild/protocompile/experimental/report"
+	"github.com/bufbuild/protocompile/experimental/source"
 )
 
 func TestS(t *testing.T) {
-	src := `syntax = "proto2";
-import "google/protobuf/descriptor.proto";
-message Cfg { repeated int32 r = 1; optional Cfg c = 2; }
-extend google.protobuf.MessageOptions { optional Cfg cfg = 50000; }
-message M { option (cfg) = { r: [1, 2, 3] c { r: [4,5] } }; }
-`
-	for _, mode := range []protocompile.SourceInfoMode{5} {
-		c := protocompile.Compiler{Resolver: protocompile.WithStandardImports(&protocompile.SourceResolver{Accessor: protocompile.SourceAccessorFromMap(map[string]string{"a.proto": src})}), SourceInfoMode: mode}
-		fs, err := c.Compile(context.Background(), "a.proto")
-		if err != nil {
-			t.Fatal(err)
-		}
-		fd := protoutil.ProtoFromFileDescriptor(fs[0])
-		for _, l := range fd.SourceCodeInfo.Location {
-			if len(l.Path) > 4 && l.Path[0] == 4 && l.Path[1] == 1 {
-				fmt.Printf("  %v %v\n", l.Path, l.Span)
-			}
-		}
+	for _, text := range []string{
+		"syntax = \"proto3\";\nenum F {\n  F_0 = 0;//c\n}\n",
+		"syntax = \"proto3\";\nenum F {\n  F_0 = 0; //c\n}\n",
+		"syntax = \"proto3\";\nenum F {\n  F_0 = 0;//c\n  F_1 = 1;\n}\n",
+		"syntax = \"proto3\";\nenum F {\n  F_0 = 0;/*c*/\n}\n",
+		"syntax = \"proto3\";\nenum F {\n  F_0 = 0;\n//c\n}\n",
+		"syntax = \"proto3\";\nenum F {\n  F_0 = 0;\n  //c\n}\n",
+		"syntax = \"proto3\";\nenum F {\n  F_0 = 0;\n}//c\n",
+		"syntax = \"proto3\";\nenum F {\n  F_0 = 0;\n}//c\nenum G { G_0 = 0; }\n",
+		"syntax = \"proto3\";//c\nenum F {\n  F_0 = 0;\n}\n",
+		"syntax = \"proto3\";\nenum F {//c\n  F_0 = 0;\n}\n",
+		"syntax = \"proto3\";\nmessage M { message N {\n  int32 x = 1;\n}//c\n}\n",
+	} {
+		r := &report.Report{}
+		f, ok := parser.Parse("a.proto", source.NewFile("a.proto", text), r)
+		got, _ := printer.PrintFile(printer.Options{}, f)
+		fmt.Printf("ok=%v same=%v\n  src=%q\n  got=%q\n", ok, got == text, text, got)
 	}
 }
